@@ -67,12 +67,16 @@ func builtinFunc(name string) func(js JSWriter, args []ast.Node) {
 	}
 }
 
+// (the argument, and the comparison as a whole, are parenthesised: the argument
+// may be a number literal - "5.length" does not scan - and the call may stand
+// next to an operator that binds tighter than the comparison.)
+
 func funcIsNonnull(js JSWriter, args []ast.Node) {
-	js.Write(args[0], "!= null")
+	js.Write("((", args[0], ") != null)")
 }
 
 func funcLength(js JSWriter, args []ast.Node) {
-	js.Write(args[0], ".length")
+	js.Write("(", args[0], ").length")
 }
 
 func funcRound(js JSWriter, args []ast.Node) {
@@ -106,7 +110,7 @@ func funcRandomInt(js JSWriter, args []ast.Node) {
 }
 
 func funcStrContains(js JSWriter, args []ast.Node) {
-	js.Write(args[0], ".indexOf(", args[1], ") != -1")
+	js.Write("((", args[0], ").indexOf(", args[1], ") != -1)")
 }
 
 func funcHasData(js JSWriter, args []ast.Node) {
